@@ -7,14 +7,14 @@ EXHAUSTIVE = {"quick": True, "thorough": True}
 RULE = ("DIRTY: real git repositories. The full matrix of every status git can report for a file (clean, modified unstaged / "
         "staged / both, added, added+modified, deleted unstaged / staged, renamed, untracked) x {file carrying a version "
         "pattern, unrelated file} x --allow-dirty on/off is enumerated completely (40 cases, each with four sets of unrelated flags: none, --ignore-vcs-tag, --tag-scope branch, --pin-increments = 160 runs), followed by seeded combinations "
-        "of 2..3 dirty files (quick 80, thorough 3,000). The status text is what real `git status --porcelain` prints (checked "
+        "of 2..3 dirty files (quick 80, thorough 100,000). The status text is what real `git status --porcelain` prints (checked "
         "against the expected XY columns). Oracle: statement predicates on exit code, file bytes, HEAD and tags; content of the "
         "bump commit from `git show`. distinct_nontrivial = distinct (set of (status, target), allow-dirty) combinations.")
 ASSUMPTIONS = ["nothing is asserted about *staged* unrelated files under --allow-dirty (the statement does not)",
                "git only (no hg binary)"]
 COMPONENTS = {"bumpver cli update, vcs.status/assert_not_dirty/commit": "real", "git": "real git 2.39 (pinned identity, dates, config)",
               "files": "real scratch repository"}
-CAMPAIGNS = [Dirty("C11", quick=140, thorough=3000)]
+CAMPAIGNS = [Dirty("C11", quick=140, thorough=100000)]
 
 
 def sanity_gate(tier, total):
